@@ -77,7 +77,8 @@ class ParamLengthInfoType(DiagCodedType):
                 # string, not its number of characters
                 str_encoding = get_string_encoding(self.base_data_type, self.base_type_encoding,
                                                    self.is_highlow_byte_order)
-                bit_length = 8 * len(cast(str, internal_value).encode(odxrequire(str_encoding)))
+                bit_length = 8 * len(
+                    cast(str, internal_value).encode(odxrequire(str_encoding), errors="replace"))
             elif self.base_data_type in [DataType.A_INT32, DataType.A_UINT32]:
                 bit_length = int(internal_value).bit_length()
                 if self.base_data_type == DataType.A_INT32:
